@@ -17,7 +17,10 @@
    out), datamodeldiagram.GenerateDataModels*/GenerateDataView/DrawRelation (reference indexing only),
    exporter.GenerateSwagger/populateEndpoint (endpoint-name split only), database.CreateTableDepthMap/
    processTableDepth/findTableDepth and the column writer's reference indexing, diagramCmd.Execute's
-   renderer step. Definitions only. *)
+   renderer step; round 3: cmdutils.SequenceDiagramVisitor.visitEndpointCollection/visitEndpoint (sd: lookups + visited
+   counter), database.ProcessModSysls/generateDatabaseScriptModify/writeModifySQLForATable (delta scripts),
+   templateCmd.Execute + transforms.Apply and testrig.GenerateRig/appNeedsDB (application-name lookups).
+   Definitions only. *)
 From Coq Require Import List Bool NArith Arith.
 Import ListNotations.
 Require Import Verif.Cmds.Walk.
@@ -25,7 +28,8 @@ Local Open Scope N_scope.
 
 Record guards := {
   g_ints_target : bool;     (* IntsBuilder handlers and ints_view.go read application / endpoint attributes through nil-safe getters *)
-  g_ints_walk_once : bool;  (* WalkPassthrough does not re-enter an endpoint that is being expanded further up the chain *)
+  g_ints_disc : discipline; (* WalkPassthrough: how b.walking is tested / marked / un-marked (an endpoint that is being
+                               expanded further up the chain is not re-entered) *)
   g_dm_path : bool;         (* DrawRelation tests the path length before Path[1] *)
   g_swagger_rest : bool;    (* populateEndpoint tests the number of words before [1] *)
   g_sw_param_schema : bool; (* setCommonAttributes creates the parameter's Schema when it is nil *)
@@ -34,14 +38,32 @@ Record guards := {
   g_db_writer_path : bool;  (* writeCreateSQLForAColumn / writeModifySQLForAColumn do not index Path directly *)
   g_db_progress : bool;     (* processTableDepth stops when a pass completes no table *)
   g_mseq_err : bool;        (* printSequenceDiagramStatements returns a callee's error (no panic call) *)
+  g_mseq_disc : discipline; (* printSequenceDiagramStatements: how *sequencePairs is tested / appended to *)
   g_mint_app : bool;        (* generateIntegrationDiagramHelper reads the endpoints through nil-safe getters *)
-  g_render_recover : bool   (* diagramCmd.Execute runs the renderer under a recover *)
+  g_mint_disc : discipline; (* printIntegrationDiagramStatements: how *integrationPairs is tested / appended to *)
+  g_render_recover : bool;  (* diagramCmd.Execute runs the renderer under a recover *)
+  g_sd_target : bool;       (* SequenceDiagramVisitor.visitEndpoint resolves the call target with the error-returning lookup *)
+  g_sd_disc : discipline;   (* visitEndpoint: how v.visited is tested / incremented / decremented *)
+  g_delta_relation : bool;  (* generateDatabaseScriptModify hands only non-nil relations to the table writers *)
+  g_coldef_ref : bool;      (* writeCreateSQLForAColumn returns a non-empty definition for a column of reference type, *)
+  g_coldef_auto : bool;     (*   for an auto-increment column, *)
+  g_coldef_plain : bool;    (*   for every other column (primitive, set, sequence, ...) *)
+  g_delta_trim : bool;      (* writeModifySQLForATable tests the definition's length before cutting its last character *)
+  (* three facts about the CURRENT shape of pkg/database / syslwrapper that are not guards (not part of all_guarded; cmd_total holds for both values) *)
+  g_db_short_done : bool;   (* findTableDepth counts a reference that is not <table>.<column> as a plain, processed column *)
+  g_coldef_fk_only : bool;  (* writeCreateSQLForAColumn takes the reference arm only for <table>.<column> references *)
+  g_oa3_nested_rets : bool; (* mapResponse also maps the return statements nested in if / else, loops and one-of blocks *)
+  g_tmpl_app : bool;        (* template: --app-name values are looked up before the views are applied to them *)
+  g_rig_nilapp : bool       (* test-rig: appNeedsDB tests the application for nil *)
 }.
 
 Definition all_guarded (g:guards) : bool :=
-  g_ints_target g && g_ints_walk_once g && g_dm_path g && g_swagger_rest g && g_sw_param_schema g &&
+  g_ints_target g && terminating (g_ints_disc g) && g_dm_path g && g_swagger_rest g && g_sw_param_schema g &&
   g_oa3_ret_split g && g_db_path g &&
-  g_db_writer_path g && g_db_progress g && g_mseq_err g && g_mint_app g && g_render_recover g.
+  g_db_writer_path g && g_db_progress g && g_mseq_err g && g_mint_app g && g_render_recover g &&
+  terminating (g_mseq_disc g) && terminating (g_mint_disc g) && g_sd_target g && terminating (g_sd_disc g) &&
+  g_delta_relation g && (g_delta_trim g || (g_coldef_ref g && g_coldef_auto g && g_coldef_plain g)) &&
+  g_tmpl_app g && g_rig_nilapp g.
 
 Record call := { c_app : N; c_ep : N; c_alt : bool }.
 (* a URL or query parameter as exporter.findSwaggerType sees its type *)
@@ -56,9 +78,10 @@ Record endpoint := {
   e_pass : list N;        (* passthrough=[...] attribute *)
   e_excl : list N;        (* exclude=[...] attribute *)
   e_params : list pclass; (* RestParams: URL parameters, then query parameters, in order *)
-  e_rets : list bool      (* top-level return statements: does the payload contain "<:" but not " <: " *)
+  e_rets : list (bool * bool) (* return statements in source order: (nested in a block?, does the payload contain "<:" but not " <: ") *)
 }.
-Record field := { f_name : N; f_ref : option (list N) }.   (* Some path iff GetTypeRef() != nil *)
+Record field := { f_name : N; f_ref : option (list N);     (* Some path iff GetTypeRef() != nil *)
+                  f_auto : bool }.                          (* carries the pattern ~autoinc *)
 Record typ := { t_name : N; t_table : bool; t_fields : list field }.
 Record app := { a_name : N; a_human : bool; a_eps : list endpoint; a_types : list typ }.
 Definition module := list app.
@@ -83,7 +106,7 @@ Definition mseq_expand (m:module) (n:N*N) : outcome * list (@edge (N*N) (N*N)) :
   end.
 Definition mseq_onerr (g:guards) : outcome := if g_mseq_err g then Err else Panic SMSeqErr.
 Definition mseq (g:guards) (m:module) (fuel:nat) (a e:N) : outcome :=
-  fst (walk pair_eqb (mseq_expand m) (mseq_onerr g) true true fuel (a, e) []).
+  fst (walk pair_eqb (mseq_expand m) (mseq_onerr g) (g_mseq_disc g) fuel (a, e) []).
 
 (* ---------------- mermaid integration diagram: diagram -i [-a app] ---------------- *)
 (* node = None (the loop over all applications of GenerateFullIntegrationDiagram) or Some app;
@@ -103,15 +126,16 @@ Definition mint (g:guards) (m:module) (fuel:nat) (start:option N) : outcome :=
   match start with
   | Some x => match find_app m x with
               | None => Err
-              | Some _ => fst (walk pair_eqb (mint_expand g m) Err true true fuel (Some x) [])
+              | Some _ => fst (walk pair_eqb (mint_expand g m) Err (g_mint_disc g) fuel (Some x) [])
               end
-  | None => fst (walk pair_eqb (mint_expand g m) Err true true fuel None [])
+  | None => fst (walk pair_eqb (mint_expand g m) Err (g_mint_disc g) fuel None [])
   end.
 
 (* ---------------- integrations: ints -j project [-e excl] ---------------- *)
 (* one builder per project endpoint (view). node = None (the loop over the seed applications' endpoints)
    or Some (app, endpoint) = WalkPassthrough(app, endpoint); key = the pass-through endpoint being expanded
-   (b.walking: recorded on entry, deleted on return - `persist` = false) *)
+   (b.walking; when it is recorded and deleted is g_ints_disc, read from the source: on HEAD recorded behind the
+   re-entry test and deleted by a defer behind it = d_in_progress) *)
 Definition ints_edge (g:guards) (m:module) (excl pass:list N) (c:call) : @edge (option (N*N)) (N*N) :=
   (* AddCall; FinalApps += target; WalkPassthrough(target, endpoint) *)
   let next := if memN (c_app c) pass then Some ((c_app c, c_ep c), Some (c_app c, c_ep c)) else None in
@@ -145,7 +169,7 @@ Definition ints_expand g m excl pass (view:endpoint) (n:option (N*N)) : outcome 
   end.
 Definition ints_view (g:guards) (m:module) (fuel:nat) (cmd_excl:list N) (view:endpoint) : outcome :=
   let excl := cmd_excl ++ e_excl view in
-  fst (walk pair_eqb (ints_expand g m excl (e_pass view) view) Err (g_ints_walk_once g) false fuel None []).
+  fst (walk pair_eqb (ints_expand g m excl (e_pass view) view) Err (g_ints_disc g) fuel None []).
 Fixpoint first_bad (os:list outcome) : outcome :=
   match os with [] => Ok | Ok :: r => first_bad r | o :: _ => o end.
 Definition ints (g:guards) (m:module) (fuel:nat) (project:N) (cmd_excl:list N) : outcome :=
@@ -201,7 +225,8 @@ Definition swagger (g:guards) (m:module) (sel:option N) : outcome :=
 
 (* ---------------- export -f openapi3: syslwrapper.AppMapper.mapEndpoints / mapResponse ---------------- *)
 Definition oa3_ep (g:guards) (e:endpoint) : outcome :=
-  first_bad (map (fun bad:bool => if bad then (if g_oa3_ret_split g then Ok else Panic SOa3RetSplit) else Ok) (e_rets e)).
+  first_bad (map (fun r:bool*bool => if snd r then (if g_oa3_ret_split g then Ok else Panic SOa3RetSplit) else Ok)
+                 (filter (fun r => g_oa3_nested_rets g || negb (fst r)) (e_rets e))).
 Definition oa3_app (g:guards) (a:app) : outcome := first_bad (map (oa3_ep g) (a_eps a)).
 Definition openapi3 (g:guards) (m:module) (sel:option N) : outcome :=
   match sel with
@@ -218,7 +243,7 @@ Fixpoint ftd (g:guards) (vis:list (N*N)) (fs:list field) : outcome * bool :=
     match f_ref f with
     | None => ftd g vis r
     | Some (t :: c :: _) => let '(o, all) := ftd g vis r in (o, memk pair_eqb (t, c) vis && all)
-    | Some _ => if g_db_path g then let '(o, _) := ftd g vis r in (o, false) else (Panic SDbPath, false)
+    | Some _ => if g_db_path g then let '(o, all) := ftd g vis r in (o, g_db_short_done g && all) else (Panic SDbPath, false)
     end
   end.
 Definition find_table_depth (g:guards) (vis:list (N*N)) (t:typ) : outcome * bool :=
@@ -262,6 +287,97 @@ Definition db_app (g:guards) (fuel:nat) (a:app) : outcome :=
 Definition db_create (g:guards) (m:module) (fuel:nat) (apps:list N) : outcome :=
   first_bad (map (fun n => match find_app m n with Some a => db_app g fuel a | None => Ok end) apps).
 
+(* ---------------- sd -s "app <- ep" (PlantUML sequence diagram, cmdutils.SequenceDiagramVisitor) ---------------- *)
+(* node = None (visitEndpointCollection: the start endpoint was looked up, its element is accepted) or
+   Some (app, endpoint) = visitEndpoint; key = the "app <- endpoint" being expanded (v.visited; discipline g_sd_disc:
+   on HEAD tested on entry, incremented behind the test, decremented behind the statements = d_in_progress).
+   visitStatment descends into every block including `one of`: all calls of the endpoint in pre-order. *)
+Definition sd_expand (g:guards) (m:module) (start:N*N) (n:option (N*N)) : outcome * list (@edge (option (N*N)) (N*N)) :=
+  match n with
+  | None => (Ok, [(Ok, Some (start, Some start))])
+  | Some (a, e) =>
+      let missing := if g_sd_target g then (Err, []) else (Panic SSdTarget, []) in
+      match find_app m a with
+      | None => missing
+      | Some ta => match find_ep ta e with
+                   | None => missing
+                   | Some ep => (Ok, map (fun c => (Ok, Some ((c_app c, c_ep c), Some (c_app c, c_ep c)))) (e_calls ep))
+                   end
+      end
+  end.
+Definition sd (g:guards) (m:module) (fuel:nat) (a e:N) : outcome :=
+  match find_app m a with
+  | None => Err                                           (* no app named ... *)
+  | Some ta => match find_ep ta e with
+               | None => Err                              (* no endpoint named ... *)
+               | Some _ => fst (walk pair_eqb (sd_expand g m (a, e)) Err (g_sd_disc g) (S fuel) None [])
+               end
+  end.
+
+(* ---------------- generate-db-scripts-delta old new ---------------- *)
+Inductive colkind := CkRef | CkAutoinc | CkPlain.     (* the three arms of writeCreateSQLForAColumn *)
+Definition kind_of (g:guards) (f:field) : colkind :=
+  let other := if f_auto f then CkAutoinc else CkPlain in
+  match f_ref f with
+  | Some p => if g_coldef_fk_only g && short_path p then other else CkRef
+  | None => other
+  end.
+Definition coldef_nonempty (g:guards) (k:colkind) : bool :=
+  match k with CkRef => g_coldef_ref g | CkAutoinc => g_coldef_auto g | CkPlain => g_coldef_plain g end.
+Definition find_typ (ts:list typ) (n:N) : option typ := find (fun t => t_name t =? n) ts.
+Definition find_field (fs:list field) (n:N) : option field := find (fun f => f_name f =? n) fs.
+(* a column that is new in a retained table: writeCreateSQLForAColumn, then TrimSpace and str[:len(str)-1] *)
+Definition delta_added (g:guards) (f:field) : outcome :=
+  match db_writer_field g f with
+  | Ok => if coldef_nonempty g (kind_of g f) || g_delta_trim g then Ok else Panic SDeltaTrim
+  | o => o
+  end.
+(* a column present in both versions: writeModifySQLForAColumn reads foreignKeyTarget of the new and of the old type *)
+Definition delta_retained (g:guards) (fnew fold:field) : outcome :=
+  first_bad [db_writer_field g fnew; db_writer_field g fold].
+Definition delta_modify (g:guards) (tnew told:typ) : outcome :=
+  first_bad (map (fun f => match find_field (t_fields told) (f_name f) with
+                           | None => delta_added g f
+                           | Some fo => delta_retained g f fo
+                           end) (t_fields tnew)).
+Definition create_table (g:guards) (t:typ) : outcome := first_bad (map (db_writer_field g) (t_fields t)).
+(* generateDatabaseScriptModify over the types of the new version (ADD / RETAIN) *)
+Definition delta_type (g:guards) (olds:list typ) (t:typ) : outcome :=
+  let nonrel := if g_delta_relation g then Ok else Panic SDeltaRelation in
+  match find_typ olds (t_name t) with
+  | None => if t_table t then create_table g t else nonrel
+  | Some told => if t_table t && t_table told then delta_modify g t told
+                 else if g_delta_relation g then (if t_table t then create_table g t else Ok)
+                 else Panic SDeltaRelation
+  end.
+Definition delta_app (g:guards) (fuel:nat) (aold anew:option app) : outcome :=
+  match aold, anew with
+  | Some o, Some n =>
+      match db_order g fuel (a_types o) [] with
+      | Ok => match db_order g fuel (a_types n) [] with
+              | Ok => first_bad (map (delta_type g (a_types o)) (a_types n))
+              | x => x
+              end
+      | x => x
+      end
+  | None, Some n => db_app g fuel n
+  | _, None => Ok
+  end.
+Definition db_delta (g:guards) (mold mnew:module) (fuel:nat) (apps:list N) : outcome :=
+  first_bad (map (fun n => delta_app g fuel (find_app mold n) (find_app mnew n)) apps).
+
+(* ---------------- template --app-name a [--app-name b] ; test-rig --template services.json ---------------- *)
+Definition undefined_app (m:module) (n:N) : bool := match find_app m n with None => true | Some _ => false end.
+(* noname: no --app-name at all (kingpin then hands over one empty name). Only the lookups of the application names are
+   modelled; what the views evaluate to (Ok or an evaluation error) is not. *)
+Definition template (g:guards) (m:module) (names:list N) (noname:bool) : outcome :=
+  let missing := existsb (undefined_app m) names in
+  if g_tmpl_app g then (if missing then Err else Ok)
+  else if missing || noname then Panic STemplateApp else Ok.
+(* GenerateRig: appNeedsDB(applications[service]) for every service of the variables file *)
+Definition testrig (g:guards) (m:module) (services:list N) : outcome :=
+  if g_rig_nilapp g then Ok else if existsb (undefined_app m) services then Panic SRigApp else Ok.
+
 (* ---------------- commands ---------------- *)
 Inductive cmd :=
 | CMSeq (a e:N)                       (* diagram -s -a a -e e *)
@@ -271,7 +387,11 @@ Inductive cmd :=
 | CDmProject (project:N) (epname:bool)
 | CSwagger (a:option N)               (* export -f swagger|openapi2 [-a a] *)
 | COpenapi3 (a:option N)              (* export -f openapi3 [-a a] *)
-| CDbCreate (apps:list N).            (* generate-db-scripts -a a,b *)
+| CDbCreate (apps:list N)             (* generate-db-scripts -a a,b *)
+| CSd (a e:N)                         (* sd -s "a <- e" (no blackboxes) *)
+| CDbDelta (old:module) (apps:list N)  (* generate-db-scripts-delta -a a,b old.sysl m.sysl : m is the NEW version *)
+| CTemplate (apps:list N) (noname:bool) (* template --template t --start v [--app-name a]... *)
+| CTestRig (services:list N).          (* test-rig --template services.json *)
 
 (* diagramCmd.Execute: generator, then the external renderer (rend = a browser is installed) *)
 Definition render (g:guards) (rend:bool) (o:outcome) : outcome :=
@@ -290,9 +410,15 @@ Definition run (g:guards) (m:module) (rend:bool) (fuel:nat) (c:cmd) : outcome :=
   | CSwagger a => swagger g m a
   | COpenapi3 a => openapi3 g m a
   | CDbCreate apps => db_create g m fuel apps
+  | CSd a e => sd g m fuel a e
+  | CDbDelta old apps => db_delta g old m fuel apps
+  | CTemplate apps noname => template g m apps noname
+  | CTestRig svcs => testrig g m svcs
   end.
 
 (* enough fuel for every command: one more than the number of call statements plus the number of types *)
 Definition all_calls (m:module) : list call := flat_map (fun a => flat_map e_calls (a_eps a)) m.
 Definition all_types (m:module) : list typ := flat_map a_types m.
 Definition fuel_bound (m:module) : nat := S (length (all_calls m) + length (all_types m)).
+(* a command that reads a second module (the old version of a delta) needs its types ordered too *)
+Definition cmd_extra (c:cmd) : nat := match c with CDbDelta old _ => length (all_types old) | _ => 0 end.
